@@ -553,7 +553,7 @@ func (r *Run) instr(fr *Frame, ins ssa.Instruction) {
 	case *ssa.MakeChan:
 		sz := r.get(fr, x.Size).(*Term)
 		n := int(r.concretize(sz, "chan size"))
-		r.set(fr, x, &ChanV{c: &ChanObj{cap: n}})
+		r.set(fr, x, &ChanV{c: &ChanObj{cap: n, init: r.isInit}})
 	case *ssa.MakeSlice:
 		r.set(fr, x, r.makeSlice(fr, x))
 	case *ssa.MapUpdate:
@@ -618,10 +618,10 @@ func (r *Run) instr(fr *Frame, ins ssa.Instruction) {
 		if c.c == nil {
 			panic(&pathEnd{kind: "deadlock", msg: "send on nil channel"})
 		}
-		if c.c.closed {
+		if r.cs(c.c).closed {
 			r.goPanic("send on closed channel")
 		}
-		c.c.buf = append(c.c.buf, r.get(fr, x.X))
+		r.cs(c.c).buf = append(r.cs(c.c).buf, r.get(fr, x.X))
 	case *ssa.Select:
 		r.set(fr, x, r.doSelect(fr, x))
 	case *ssa.MultiConvert:
@@ -658,19 +658,19 @@ func (r *Run) doSelect(fr *Frame, x *ssa.Select) Value {
 	for i, st := range x.States {
 		c := r.get(fr, st.Chan).(*ChanV)
 		if st.Dir == types.RecvOnly {
-			if c.c != nil && (len(c.c.buf) > 0 || c.c.closed) {
+			if c.c != nil && (len(r.cs(c.c).buf) > 0 || r.cs(c.c).closed) {
 				res[0] = r.ts.Const(64, uint64(i))
-				if len(c.c.buf) > 0 {
-					res[2+ri] = c.c.buf[0]
-					c.c.buf = c.c.buf[1:]
+				if len(r.cs(c.c).buf) > 0 {
+					res[2+ri] = r.cs(c.c).buf[0]
+					r.cs(c.c).buf = r.cs(c.c).buf[1:]
 					res[1] = r.ts.Bool(true)
 				}
 				return res
 			}
 			ri++
 		} else {
-			if c.c != nil && !c.c.closed {
-				c.c.buf = append(c.c.buf, r.get(fr, st.Send))
+			if c.c != nil && !r.cs(c.c).closed {
+				r.cs(c.c).buf = append(r.cs(c.c).buf, r.get(fr, st.Send))
 				res[0] = r.ts.Const(64, uint64(i))
 				return res
 			}
@@ -713,6 +713,22 @@ func (r *Run) prepCall(fr *Frame, c *ssa.CallCommon) (Value, []Value) {
 		args = append(args, r.get(fr, a))
 	}
 	return r.get(fr, c.Value), args
+}
+
+// cs: the channel state this path works on - its own copy for channels made by package initialisers.
+func (r *Run) cs(c *ChanObj) *ChanObj {
+	if !c.init || r.isInit {
+		return c
+	}
+	if r.cshadow == nil {
+		r.cshadow = map[*ChanObj]*ChanObj{}
+	}
+	s, ok := r.cshadow[c]
+	if !ok {
+		s = &ChanObj{buf: append([]Value{}, c.buf...), cap: c.cap, closed: c.closed}
+		r.cshadow[c] = s
+	}
+	return s
 }
 
 // runOneQueued runs the oldest queued goroutine to completion (nested on the current one); false if none is queued.
@@ -797,7 +813,7 @@ func (r *Run) builtin(b *ssa.Builtin, args []Value, c *ssa.CallCommon) Value {
 			if x.c == nil {
 				return ts.Const(64, 0)
 			}
-			return ts.Const(64, uint64(len(x.c.buf)))
+			return ts.Const(64, uint64(len(r.cs(x.c).buf)))
 		case *ArrayV:
 			return ts.Const(64, uint64(len(x.e)+x.lazyN))
 		case *PtrV:
@@ -878,7 +894,7 @@ func (r *Run) builtin(b *ssa.Builtin, args []Value, c *ssa.CallCommon) Value {
 		if ch.c == nil {
 			r.goPanic("close of nil channel")
 		}
-		ch.c.closed = true
+		r.cs(ch.c).closed = true
 		return nil
 	case "min", "max":
 		acc := args[0].(*Term)
@@ -1254,11 +1270,11 @@ func (r *Run) unop(fr *Frame, x *ssa.UnOp) Value {
 		et := x.X.Type().Underlying().(*types.Chan).Elem()
 		var val Value
 		ok := false
-		if c.c != nil && len(c.c.buf) > 0 {
-			val = c.c.buf[0]
-			c.c.buf = c.c.buf[1:]
+		if c.c != nil && len(r.cs(c.c).buf) > 0 {
+			val = r.cs(c.c).buf[0]
+			r.cs(c.c).buf = r.cs(c.c).buf[1:]
 			ok = true
-		} else if c.c != nil && c.c.closed {
+		} else if c.c != nil && r.cs(c.c).closed {
 			val = r.zero(et)
 		} else if r.runOneQueued() {
 			return r.unop(fr, x)
